@@ -162,12 +162,13 @@ Target Tables:
         """
         a list of column tuple :class:`sqllineage.models.Column`
         """
-        # sort by target column, and then source column
+        # sort by target column, and then source column; paths sharing both end points are ordered by their
+        # intermediate columns, otherwise their order would follow the hash order of the set they come from
         return sorted(
             self._sql_holder.get_column_lineage(
                 exclude_path_ending_in_subquery, exclude_subquery_columns
             ),
-            key=lambda x: (str(x[-1]), str(x[0])),
+            key=lambda x: (str(x[-1]), str(x[0]), [str(c) for c in x]),
         )
 
     def print_column_lineage(self) -> None:
